@@ -38,7 +38,7 @@ def functions_of(pid, core=True):
     ev = json.load(open(os.path.join(HERE, "evidence", f"{pid}.json")))
     out = {}
     if core and "obligation_sites" in ev["coverage"]:
-        generic = {f"R{pid[1:]}.{k}" for k in (9, 12, 13, 20)}
+        generic = {f"R{pid[1:]}.{k}" for k in (9, 12, 13, 18, 19, 20)}
         names = [s for s, rules in ev["coverage"]["obligation_sites"].items() if set(rules) - generic]
     else:
         names = ev["coverage"]["analysed"]["functions"]
